@@ -238,7 +238,13 @@ def finish(ctx, level, level_note="", checker_cmd=None):
         b = backends.setdefault(o.backend or "-", dict(obligations=0, time_s=0.0))
         b["obligations"] += 1
         b["time_s"] = round(b["time_s"] + o.time_s, 4)
-    assumptions = list(GLOBAL_ASSUMPTIONS) + ctx.assumptions
+    # assumption scan: dependency contracts (stubs) actually exercised on this run
+    try:
+        from . import deps as _deps
+        used = sorted(_deps.USED)
+    except Exception:
+        used = []
+    assumptions = list(GLOBAL_ASSUMPTIONS) + ctx.assumptions + ["dependency contract exercised on this run: " + u for u in used]
     ev = dict(
         property_id=ctx.prop, tier=ctx.tier, seed=ctx.seed, level=level,
         coverage=dict(
@@ -280,6 +286,11 @@ def run_property(prop, tier="quick", seed=None):
     seed = int(os.environ.get("VERIF_SEED", "0")) if seed is None else seed
     module_name = "props." + prop
     ctx = Ctx(prop, tier, seed, module_name)
+    try:
+        from . import field as _field
+        _field.N_POINTS = 3 if tier == "quick" else 12      # numeric refuter points evaluated before every normal-form proof
+    except Exception:
+        pass
     try:
         mod = importlib.import_module(module_name)
     except Exception:
